@@ -10,7 +10,7 @@ RULE = ("BFS over histories of the full MutableMapping/MutableSequence surface (
         "synced operands) on the root and on children at depth 1-2; per operation the return value (plain, exact "
         "leaf types), the exception class and the content/resource afterwards must equal the built-in's; "
         "non-trivial = distinct reached states")
-BOUNDS = {"quick": "JSONDict/JSONList depth 2; other JSON classes depth 1",
+BOUNDS = {"quick": "JSONDict/JSONList depth 2 (full surface at the first level, reduced comparison/slice cross-products after it); other JSON classes depth 1",
           "thorough": "JSONDict/JSONList depth 3 (reduced pool at level 3); all JSON classes depth 2; fakes depth 1"}
 ASSUMPTIONS = ["documented deviations only: forbidden data rejected, dict.pop(missing) -> None, key order "
                "unspecified, bytes/tuples stored as lists", "server backends against fake stores"]
@@ -18,7 +18,7 @@ ASSUMPTIONS = ["documented deviations only: forbidden data rejected, dict.pop(mi
 OPERANDS = ([], [0], [0, [1, {"a": 0}]], [0, [1, {"a": 0}], {"b": [0]}], [-1], [1], [0, [1, {"a": 0}], {"b": [0]}, 1], "s", 3)
 
 
-def list_surface(h):
+def list_surface(h, full=True):
     ev = alpha.list_reads(h) + alpha.list_mutators(h, alpha.VALUES_CORE)
     for i in (-4, -3, -2, 2, 3, 4):
         ev.append(("op", h, "getitem", (i,)))
@@ -30,7 +30,7 @@ def list_surface(h):
         s = ("#slice",) + sl
         ev.append(("op", h, "getitem", (s,)))
         ev.append(("op", h, "delitem", (s,)))
-        for rhs in ([], [7], [7, [8]], 5, "ab"):
+        for rhs in (([], [7], [7, [8]], 5, "ab") if full else ([7, [8]],)):
             ev.append(("op", h, "setitem", (s, rhs)))
     ev.append(("op", h, "getitem", ("x",)))
     ev.append(("op", h, "setitem", ("x", 1)))
@@ -47,7 +47,7 @@ def list_surface(h):
     ev.append(("op", h, "index", ({"b": [0]}, -2, 5)))
     ev.append(("op", h, "index", ([1, {"a": 0}], 0, 0)))
     for op in ("eq", "ne", "lt", "le", "gt", "ge"):
-        for o in OPERANDS:
+        for o in (OPERANDS if full else OPERANDS[1:4]):
             ev.append(("op", h, op, (o,)))
             if isinstance(o, list):
                 ev.append(("op", h, op, (("#synced", o),)))
@@ -89,8 +89,9 @@ def dict_surface(h):
 
 def alphabet(ref, task):
     out = []
+    full = task.get("level", 0) == 0 or task["extra"].get("full_everywhere")
     for h in ref.attached_handles():
-        out += dict_surface(h) if ref.handle_kind(h) == "dict" else list_surface(h)
+        out += dict_surface(h) if ref.handle_kind(h) == "dict" else list_surface(h, full)
     lvl = task["extra"].get("level3")
     return out
 
